@@ -141,6 +141,7 @@ def run(tier):
     ndocs = 12 if thorough else 3
     nenc = 10 if thorough else 5
     kinds_seen = {}
+    e2e_texts = []
     for m in entries:
         for i in range(ndocs):
             sd = rnd.randrange(1 << 30)
@@ -157,6 +158,8 @@ def run(tier):
                 t2 = reencode(text, term, ele, sub, brk, m['icvn'])
                 how = rnd.choice(CHUNKINGS)
                 got = observe(t2, term, ele, sub, make_source(t2, term, brk, how, rnd))
+                if len(e2e_texts) < 400 and len(t2) < 20000 and rnd.random() < 0.2:
+                    e2e_texts.append(t2)
                 res.count()
                 res.distinct((m['map_file'], sd, tuple(kinds), term, ele, sub, brk, how))
                 if got != base:
@@ -170,6 +173,9 @@ def run(tier):
                                    'required': 'identical verdict, error set and acknowledgement body'})
             if len(res.cov['samples']) < 3:
                 res.sample({'map': m['map_file'], 'faults': kinds, 'verdict': base[0], 'errors': len(base[2]), 'encodings': [repr(e) for e in encs[:3]]})
+    if built:
+        from . import doc as docmod
+        docmod.attach(res, e2e_texts, 're-encoded', limit=(120 if thorough else 24))
     res.notes['fault_kinds'] = kinds_seen
     res.notes['disagreements_checked'] = 0
     res.assumptions = ['delimiters are characters absent from the data; the component separator is allowed by the declared character set',
